@@ -31,7 +31,7 @@ for p in pats:
         if os.path.isdir(f):
             subprocess.run(["rsync", "-a", "--delete", f + "/", dst + "/"], check=True)
         else:
-            shutil.copy2(f, dst)
+            shutil.copy(f, dst); os.utime(dst)
         pulled.append(rel)
 print("pulled", len(pulled), "paths")
 
